@@ -154,6 +154,11 @@ def glue_prefilters(info):
             out.append((fid, b""))
     return out
 
+def _prefilter(pre, data):
+    for fid, props in pre:
+        data = gflt.apply_nonlast(fid, props, data, True)
+    return data
+
 def apply_prefilters(info, data, encode=True):
     fl = glue_prefilters(info)
     for fid, props in (fl if encode else reversed(fl)):
@@ -254,8 +259,10 @@ def encode(plan, data, bias=0, seed=1):
         if e in ("easy", "stream", "stream_mt", "alone", "raw1", "raw2", "block", "microlzma"):
             c = lz.Coder()
             segs = segments_for(plan, n, rng) if e in ("easy", "stream", "raw2", "block", "stream_mt") else [(n, lz.FINISH)]
-            if e == "stream_mt":
+            if e == "stream_mt":     # no LZMA_SYNC_FLUSH in the threaded encoder
                 segs = [(ln, lz.FULL_FLUSH if a == lz.SYNC_FLUSH else a) for ln, a in segs]
+            if e in ("raw2", "block"):   # no LZMA_FULL_FLUSH in raw / Block encoders
+                segs = [(ln, lz.SYNC_FLUSH if a == lz.FULL_FLUSH else a) for ln, a in segs]
             if info["chain"] in ("x86", "arm64delta"):
                 segs = [(n, lz.FINISH)]       # keep the BCJ filter's view of the data one piece (see encrun docstring)
             if e == "easy":
@@ -488,7 +495,7 @@ def lz_executions(R, libret, libout, mode=None):
     # ---- LZMA2: raw or per Block
     if R.kind == "raw2":
         r2 = glzma2.decode(R.out, info["dict_size"], preset_dict=pd, collect=collect)
-        blocks = [dict(l2=r2, l2len=len(R.out), slice=data)]
+        blocks = [dict(l2=r2, l2len=len(R.out), slice=data, pre=glue_prefilters(info))]
         R.glue_out = apply_prefilters(info, r2.out, encode=False)
         gl_status = r2.status if r2.consumed == len(R.out) else "trailing"
     else:
@@ -502,7 +509,8 @@ def lz_executions(R, libret, libout, mode=None):
                 if "lzma2" not in B or "out_size" not in B:
                     continue
                 sz = B["out_size"]
-                blocks.append(dict(l2=B["lzma2"], l2len=B.get("data_size", -1), slice=data[off:off + sz]))
+                blocks.append(dict(l2=B["lzma2"], l2len=B.get("data_size", -1), slice=data[off:off + sz],
+                                   pre=B["filters"][:-1]))
                 off += sz
         gl_status = P.verdict
     nb = len(blocks)
@@ -516,7 +524,9 @@ def lz_executions(R, libret, libout, mode=None):
     for bi, B in enumerate(blocks):
         r2 = B["l2"]
         sl = B["slice"]
-        fin = apply_prefilters(info, sl, encode=True) if info["chain"] != "lzma2" else sl
+        # what the LZMA2 encoder of this Block was fed: the slice after the non-last filters that the Block Header
+        # declares (the single-call encoders fall back to a plain LZMA2 chain with uncompressed chunks)
+        fin = _prefilter(B["pre"], sl)
         ev = [dict(common, e="Reset", input=list(fin) if mode == "bytes" else [], inlen=len(fin), indig=dig(fin),
                    l2len=B["l2len"], id="%s/b%d" % (label, bi))]
         for ck in r2.chunks:
@@ -549,7 +559,7 @@ def lz_executions(R, libret, libout, mode=None):
         # liblzma's decoder sees the whole container; its verdict is attached to every Block's execution, its bytes
         # are compared per Block after the glue's independent un-filtering is applied the other way round
         lo = libout[sum(len(b["slice"]) for b in blocks[:bi]):][:len(sl)]
-        lof = apply_prefilters(info, lo, encode=True) if info["chain"] != "lzma2" else lo
+        lof = _prefilter(B["pre"], lo)
         end.update(liblen=len(lof), libdig=dig(lof), libret=libret)
         ex.append(["%s/b%d" % (label, bi), "lzma2", ev, end])
     R.nblocks = nb
